@@ -8,9 +8,9 @@ Functions under contract (real code of /repo):
 Scope
   exhaustive  * every Hypergraph on the node set {0..n-1} (all n nodes present, hence isolated nodes whenever the
                 hyperedges do not cover them) with at most m distinct hyperedges of size 1..n (nested ones included):
-                quick n <= 5, m <= 3;  thorough n <= 5, m <= 4.
+                quick (n, m) = (1,1) (2,3) (3,4) (4,4) (5,3);  thorough (1,1) (2,3) (3,7 = all) (4,5) (5,4).
               * every DirectedHypergraph on {0..n-1} whose hyperedges have disjoint non-empty source and target sets:
-                quick n <= 3 with m <= 3 and n = 4 with m <= 2;  thorough n <= 4 with m <= 3 and n = 5 with m <= 2.
+                quick (n, m) = (2,2) (3,3) (4,2);  thorough (2,2) (3,4) (4,3) (5,2).
               * on each of them every configuration: distance "intersection" with s in {1,2,3}, distance "jaccard" with
                 s in {0.25,0.5,1.0}, weighted in {False,True}; keep_isolated in {False,True}.
               Every second enumerated instance is built with a shuffled insertion order of nodes and hyperedges.
@@ -459,11 +459,11 @@ def _shuffled(spec, seed, idx):
     return dict(spec, nodes=nodes, edges=edges)
 
 
-def _exhaustive_undirected(n_max, m_max, seed):
+def _exhaustive_undirected(plan, seed):
     idx = 0
-    for n in range(1, n_max + 1):
+    for n, m_max in plan:
         subsets = [list(c) for k in range(1, n + 1) for c in itertools.combinations(range(n), k)]
-        for m in range(0, m_max + 1):
+        for m in range(0, min(m_max, len(subsets)) + 1):
             for es in itertools.combinations(subsets, m):
                 spec = dict(kind="U", nodes=list(range(n)), edges=[list(e) for e in es])
                 idx += 1
@@ -602,15 +602,15 @@ def run(ctx):
     quick = ctx.quick
     seed = ctx.seed
     if quick:
-        u_n, u_m, d_plan, n_rand = 5, 3, [(1, 3), (2, 3), (3, 3), (4, 2)], 400
+        u_plan, d_plan, n_rand = [(1, 1), (2, 3), (3, 4), (4, 4), (5, 3)], [(2, 2), (3, 3), (4, 2)], 400
     else:
-        u_n, u_m, d_plan, n_rand = 5, 4, [(1, 3), (2, 3), (3, 3), (4, 3), (5, 2)], 6000
+        u_plan, d_plan, n_rand = [(1, 1), (2, 3), (3, 7), (4, 5), (5, 4)], [(2, 2), (3, 4), (4, 3), (5, 2)], 6000
 
-    ctx.rule("exhaustive: every Hypergraph on nodes {0..n-1}, n<=%d, with <=%d distinct hyperedges of size 1..n (all nodes "
-             "added, so uncovered ones are isolated); every DirectedHypergraph with disjoint non-empty source/target for "
-             "(n, max hyperedges) in %s; on each one every configuration distance x s x weighted "
+    ctx.rule("exhaustive: every Hypergraph on nodes {0..n-1} with <=m distinct hyperedges of size 1..n for (n, m) in %s (all "
+             "nodes added, so uncovered ones are isolated); every DirectedHypergraph with disjoint non-empty source/target "
+             "for (n, m) in %s; on each one every configuration distance x s x weighted "
              "(intersection s in {1,2,3}, jaccard s in {0.25,0.5,1.0}), keep_isolated in {F,T}; every second instance is "
-             "built in a shuffled insertion order" % (u_n, u_m, [tuple(p) for p in d_plan if p[0] >= 3]))
+             "built in a shuffled insertion order" % (u_plan, d_plan))
     ctx.rule("random (seeded): %d undirected + %d directed instances with 5..9 / 4..8 nodes, 3..8 hyperedges up to size 6, "
              "nested and overlapping hyperedges forced, integer (0..N-1, sparse, negative) or string labels, isolated "
              "nodes, weighted containers, remove_edge/remove_node histories; extra thresholds s in {4,5} and "
@@ -628,7 +628,7 @@ def run(ctx):
     rand_d = [_random_directed(r) for _ in range(n_rand)]
 
     tasks = []
-    for ch in _chunks(_exhaustive_undirected(u_n, u_m, seed), 400):
+    for ch in _chunks(_exhaustive_undirected(u_plan, seed), 400):
         tasks.append((ch, False))
     for ch in _chunks(_exhaustive_directed(d_plan, seed), 400):
         tasks.append((ch, False))
@@ -645,10 +645,10 @@ def run(ctx):
         sinks = [_work(t) for t in tasks]
     for s in sinks:
         s.merge_into(ctx)
-    ctx.exhaustive_parts.append("all Hypergraphs on {0..n-1}, n<=%d, <=%d hyperedges x all 12 line-graph configurations, "
-                                "both clique modes, bipartite projection, simplicial complex" % (u_n, u_m))
-    ctx.exhaustive_parts.append("all DirectedHypergraphs (disjoint non-empty source/target) for (n, max hyperedges) in %s "
-                                "x all 12 configurations" % ([tuple(p) for p in d_plan],))
+    ctx.exhaustive_parts.append("all Hypergraphs on {0..n-1} with <=m hyperedges for (n, m) in %s x all 12 line-graph "
+                                "configurations, both clique modes, bipartite projection, simplicial complex" % (u_plan,))
+    ctx.exhaustive_parts.append("all DirectedHypergraphs (disjoint non-empty source/target) on {0..n-1} with <=m hyperedges "
+                                "for (n, m) in %s x all 12 configurations" % (d_plan,))
 
 
 def replay(data):
